@@ -1,7 +1,7 @@
 //! C02 - verification accepts exactly the triples RFC 8554 accepts, and nothing else.
 use super::common::*;
 use super::wire::{self, Base, MutCase, Mutation, Target};
-use crate::engine::{fail, pass, Ctx, Opts, Verdict};
+use crate::engine::{fail, pass, Ctx, Opts};
 use crate::gen;
 use crate::hashid::{HashId, ALL_HASHES};
 use crate::libapi::{self, Cb, Out, VERIFY_ENTRIES};
@@ -76,7 +76,7 @@ pub fn run(ctx: &Ctx) {
         }
     });
 
-    let cases = ctx.tier.pick(40_000u32, 1_000_000u32);
+    let cases = ctx.tier.pick(100_000u32, 1_500_000u32);
     ctx.random("mutations", &wire::mut_case, cases, Opts { shrink_iters: 300, ..Opts::default() }, |c: &MutCase| {
         let (h, t, class, changed) = wire::materialise(pool, c);
         let m = Model::with_overrides(h, &ov);
